@@ -26,6 +26,9 @@ from funsor.sum_product import (partial_sum_product, sum_product, modified_parti
                                 dynamic_partial_sum_product)
 from funsor.einsum import einsum as f_einsum
 from funsor.terms import Number
+from funsor.constant import Constant
+from funsor.interpretations import lazy as lazy_interp
+from funsor.interpreter import reinterpret
 
 VARS = ["a", "b", "c", "d"]
 PLATES = ["i", "j", "k"]
@@ -44,11 +47,16 @@ class Graph:
     """factors: list of tuples of names; sizes: name -> size; lin: list of exact *linear-carrier* arrays
     (object arrays of Fraction / float specials), one per factor, shaped like the factor's inputs."""
 
-    def __init__(self, factors, sizes, lin, sr):
+    def __init__(self, factors, sizes, lin, sr, kinds=None):
         self.factors = [tuple(f) for f in factors]
         self.sizes = dict(sizes)
         self.lin = lin
         self.sr = sr
+        # per factor: None = Tensor; ("const", [plates…]) = funsor.Constant over those plates of a Tensor over
+        # the remaining inputs (the table in `lin` is the EXPANDED one: constant along those axes);
+        # ("number",) = funsor Number (no inputs); ("lazy",) = a lazily built Binary of two Tensors;
+        # ("dup", j) = the very same funsor object as factor j, listed again (its table in `lin` is factor j's)
+        self.kinds = list(kinds) if kinds else [None] * len(self.factors)
 
     def names(self):
         out = []
@@ -66,16 +74,42 @@ class Graph:
             if kind == "log":
                 with np.errstate(divide="ignore"):
                     arr = np.log(arr)
-            ts.append(Tensor(arr, OrderedDict((n, Bint[self.sizes[n]]) for n in f)))
+            k = self.kinds[len(ts)]
+            if k is not None and k[0] == "dup":
+                ts.append(ts[k[1]])      # the SAME funsor object listed again
+            else:
+                ts.append(self._make(f, arr, k))
         return ts
+
+    def _make(self, f, arr, kind):
+        full = Tensor(arr, OrderedDict((n, Bint[self.sizes[n]]) for n in f))
+        if kind is None:
+            return full
+        if kind[0] == "const":
+            cs = [n for n in f if n in kind[1]]
+            idx = tuple(0 if n in cs else slice(None) for n in f)
+            inner = Tensor(arr[idx], OrderedDict((n, Bint[self.sizes[n]]) for n in f if n not in cs))
+            return Constant(OrderedDict((n, Bint[self.sizes[n]]) for n in cs), inner)
+        if kind[0] == "number":
+            return Number(float(arr.reshape(-1)[0]))
+        if kind[0] == "lazy":
+            _, prod_op, _, _ = SEMIRINGS[self.sr]
+            unit = Tensor(np.full(arr.shape[:1], float(ops.UNITS[prod_op])),
+                          OrderedDict((n, Bint[self.sizes[n]]) for n in f[:1]))
+            with lazy_interp:
+                return prod_op(full, unit)
+        raise ValueError(kind)
 
     def wire_factors(self):
         return [[[[n, self.sizes[n]] for n in f], [exact_lin(v) for v in np.asarray(d, dtype=object).reshape(-1)]]
                 for f, d in zip(self.factors, self.lin)]
 
     def describe(self):
-        return dict(factors=["".join(f) for f in self.factors], sizes=self.sizes, sr=self.sr,
-                    data=[np.asarray(d, dtype=np.float64).reshape(-1).tolist() for d in self.lin])
+        d = dict(factors=["".join(f) for f in self.factors], sizes=self.sizes, sr=self.sr,
+                 data=[np.asarray(d, dtype=np.float64).reshape(-1).tolist() for d in self.lin])
+        if any(k is not None for k in self.kinds):
+            d["kinds"] = [list(k) if k is not None else None for k in self.kinds]
+        return d
 
 
 def exact_lin(v):
@@ -339,6 +373,65 @@ def gen_random_graph(rng, tier):
     return factors, sizes, [p for p in ps]
 
 
+
+def decorate(rng, g, plates):
+    """The same graph with some Tensor factors replaced by other factor kinds of identical meaning:
+    funsor.Constant over 1-3 of the factor's plates (the table is made constant along them, so the
+    expansion — what the model and the oracle see — is unchanged), Number for input-free factors, and a
+    lazily built Binary.  None if nothing could be decorated."""
+    lin, kinds, any_ = [], [], False
+    for f, d in zip(g.factors, g.lin):
+        arr = np.asarray(d, dtype=np.float64).reshape(tuple(g.sizes[n] for n in f))
+        fp = [n for n in f if n in plates]
+        r = rng.random()
+        kind = None
+        if fp and r < 0.65:
+            k = rng.randint(1, len(fp))
+            cs = sorted(rng.sample(fp, k))
+            idx = tuple(slice(0, 1) if n in cs else slice(None) for n in f)
+            arr = np.broadcast_to(arr[idx], arr.shape).copy()
+            kind = ("const", cs)
+        elif not f and r < 0.8:
+            kind = ("number",)
+        elif f and r > 0.92:
+            kind = ("lazy",)
+        any_ = any_ or kind is not None
+        lin.append(arr)
+        kinds.append(kind)
+    factors = list(g.factors)
+    if factors and rng.random() < 0.35:
+        # the same object listed 2-3 times (a Number, a Tensor, a Constant; with or without variables/plates)
+        j = rng.randrange(len(factors))
+        for _ in range(rng.choice([1, 1, 2])):
+            factors.append(factors[j])
+            lin.append(lin[j].copy())
+            kinds.append(("dup", j))
+        any_ = True
+    if not any_:
+        return None
+    return Graph(factors, g.sizes, lin, g.sr, kinds)
+
+
+def decorated_cases(rng, g, plates, elim):
+    """psp + (sum_product | two-call split | a plate-at-a-time split) on a decorated copy of the graph"""
+    gd = decorate(rng, g, plates)
+    if gd is None:
+        return []
+    out = [Case(gd, plates, elim, "psp", decor=True)]
+    r = rng.random()
+    ep = [p for p in elim if p in plates]
+    if r < 0.35 or not elim:
+        out.append(Case(gd, plates, elim, "sp", decor=True))
+    elif r < 0.7 and len(ep) >= 1:
+        # eliminate one plate first, everything else in the second call (valid or not: gated accordingly)
+        p0 = rng.choice(ep)
+        out.append(Case(gd, plates, elim, "split", e1=[p0], e2=[n for n in elim if n != p0], decor=True))
+    else:
+        e1, e2 = gen_split(rng, gd.factors, elim, plates)
+        out.append(Case(gd, plates, elim, "split", e1=e1, e2=e2, decor=True))
+    return out
+
+
 def gen_elim(rng, names):
     r = rng.random()
     if r < 0.45:
@@ -423,6 +516,14 @@ def product_table(g, rs, free):
     or None if some result is lazy.  KeyError/ValueError if a result has an input outside `free`."""
     _, prod_op, _, kind = SEMIRINGS[g.sr]
     r = _reduce(prod_op, rs, Number(ops.UNITS[prod_op]))
+    if not isinstance(r, (Tensor, Number, Constant)):
+        r = reinterpret(r)          # a lazy result: evaluate it (still lazy -> a decline)
+    names = [n for n, _ in free]
+    while isinstance(r, Constant):  # constant along its const inputs: broadcast
+        for k in r.const_inputs:
+            if k not in names:
+                raise KeyError(f"unexpected const input {k!r} in result (expected subset of {names})")
+        r = r.arg
     tab = table(r, free)
     if tab is None:
         return None
@@ -522,8 +623,9 @@ def case_from_doc(d):
     factors = [tuple(f) for f in d["factors"]]
     sizes = d["sizes"]
     lin = [np.array(x, dtype=np.float64).reshape(tuple(sizes[n] for n in f)) for f, x in zip(factors, d["data"])]
-    g = Graph(factors, sizes, lin, d["sr"])
-    kw = {k: d[k] for k in ("e1", "e2", "output", "scales", "expect_value") if k in d}
+    kinds = [tuple(k) if k is not None else None for k in d["kinds"]] if d.get("kinds") else None
+    g = Graph(factors, sizes, lin, d["sr"], kinds)
+    kw = {k: d[k] for k in ("e1", "e2", "output", "scales", "expect_value", "decor") if k in d}
     return Case(g, d["plates"], d["elim"], d["variant"], **kw)
 
 
@@ -626,8 +728,14 @@ def evaluate(ctx, c, answers, use_driver=True):
             ctx.count("fidelity:decline-mismatch")
         else:
             ctx.count("fidelity:decline-agree")
+    decorated = any(k is not None for k in g.kinds)
+    if decorated:
+        ctx.count("factor-kinds:" + "+".join(sorted({k[0] for k in g.kinds if k is not None})))
     if status == "declined":
-        if model is not None and model[0] == "value":
+        if decorated:
+            # Constant / Number / lazy factors: the model does not model that code path; a decline is permitted
+            ctx.count(f"factor-kinds:declined:{rs}")
+        elif model is not None and model[0] == "value":
             # the elimination loop completes in the model (and its value equals the unrolling), yet funsor
             # raised: the graph is tractable, the property promises a value.  Never observed on the pinned
             # tree (0 of ~27000 cases over seeds 0-2), so this is gated.
@@ -876,6 +984,7 @@ def size_ok(c, cap):
     return joint * inst * npts <= cap
 
 
+
 def clean_cases(ctx, volume=1):
     """The clean stream, as a generator of Case lists (one list per graph)."""
     rng = ctx.rng
@@ -906,7 +1015,7 @@ def clean_cases(ctx, volume=1):
         shapes3 += [sh for k, sh in enumerate(four) if k % 3 == ctx.seed % 3]
         ctx.count("plate-structures-3:four-factor-third", 1)
     else:
-        for _ in range(800 * volume):      # 4 factors: sampled in the quick tier
+        for _ in range(600 * volume):      # 4 factors: sampled in the quick tier
             shapes3.append([tuple(n for b, n in enumerate(NAMES6) if m >> b & 1)
                             for m in (rng.randrange(64) for _ in range(4))])
     for si, shape in enumerate(shapes3):
@@ -925,8 +1034,16 @@ def clean_cases(ctx, volume=1):
             if new_ordinal_shape(g.factors, elim, plates3):
                 ctx.count("plate-structures-3:creates-new-ordinal")
             yield variants_for(rng, g, plates3, elim, full=False)
+            # other factor kinds (Constant over some of the plates, Number, lazy) on the same shape
+            if rng.random() < (0.3 if not thorough else 0.5):
+                srd = rng.choice(["add-mul", "add-mul", "logaddexp-add", "logaddexp-add", "max-add", "min-mul"])
+                gd = make_graph(rng, [tuple(f) for f in shape], sizes, srd)
+                cs = decorated_cases(rng, gd, plates3, elim)
+                if cs:
+                    ctx.count("stratum:factor-kinds")
+                    yield cs
     # --- random larger ---------------------------------------------------------------------
-    n = (700 if not thorough else 3500) * volume
+    n = (500 if not thorough else 3500) * volume
     made = 0
     while made < n:
         factors, sizes, plates = gen_random_graph(rng, ctx.tier)
@@ -939,9 +1056,11 @@ def clean_cases(ctx, volume=1):
 
 
 def correspond(ctx):
-    ctx.rule = ("(0) EVERY plate structure: all multisets of <= 3 factors (thorough: plus a seed-rotated third of the 33,963 four-factor shapes; quick samples 800 with 4) over "
+    ctx.rule = ("(0) EVERY plate structure: all multisets of <= 3 factors (thorough: plus a seed-rotated third of the 33,963 four-factor shapes; quick samples 600 with 4) over "
                 "3 variables and 3 plates up to renaming (3038 / 37001 shapes), full elimination (+ a random eliminate set), "
-                "sizes fitted under the unrolling cap, six semirings in rotation; "
+                "sizes fitted under the unrolling cap, six semirings in rotation; on 30% (thorough 50%) of these shapes also a copy "
+                "with other FACTOR KINDS of identical meaning: funsor.Constant over 1-3 of a factor's plates, Number, lazy "
+                "Binary (psp + sum_product / plate-at-a-time and random two-call splits); "
                 "(1) every multiset of <= 3 factors over 3 variables and 2 plates up to renaming (1018 shapes), sizes 1-2, "
                 "with full elimination + 2 random eliminate sets (quick) / every eliminate set (thorough), random "
                 "semiring and data, partial_sum_product plus one other entry point each; (2) random graphs <= 5 "
@@ -986,6 +1105,9 @@ def correspond(ctx):
     flush()
     ctx.assumptions.append("float64 arithmetic on the generated small integers / dyadic rationals is exact; the "
                            "logaddexp-add semiring is compared in linear space with rtol 1e-9")
+    ctx.assumptions.append("duplicate factors: the Lean model and theorems take a factor LIST (Run: a Multiset), so a factor "
+                           "listed twice is two factors there by construction; the harness lists the same funsor object "
+                           "2-3 times to check that funsor agrees (fix 5586110: _partition keys term nodes by position)")
     ctx.assumptions.append("two-call splits are compared with the one-shot unrolling only when inner-first "
                            "(split_valid); other splits are covered call-by-call")
     ctx.assumptions.append("the executable Lean loop (Model/C09.lean) is tied to the abstract statements of Props/C09.lean "
